@@ -1,8 +1,8 @@
 """C15 — names and numeric ids are identified by the spec's hash everywhere (structural clauses)."""
 import re
 
-from facts import (AnchorMissing, Facts, callee, expr_path, lit_value, nodes, op_int, peel, short, term_callee,
-                   unblock, walk)
+from facts import (AnchorMissing, Facts, callee, expr_path, lit_value, nodes, op_int, pat_alternatives, peel, short,
+                   term_callee, unblock, walk)
 from shared import Spec, arm_rows, the_match
 from c15_util import DefUse, canonical_mir, local_name, scoped_calls, strip_refs
 import sorted_unique
@@ -20,6 +20,9 @@ INT_BITS = {"u8": 8, "u16": 16, "u32": 32, "u64": 64, "u128": 128}
 
 
 # --------------------------------------------------------------------------- R1: the hash function
+FROM_U8 = r"^core::convert::num::<impl core::convert::From<u8> for (u\d+)>::from$"   # lossless zero-extension
+
+
 def hash_shape(body):
     """Extract (init, multiplier, accumulator type, byte source, element cast) of a Horner-style hash loop from MIR
     by def-use tracing; raises AnchorMissing with the reason if the function is not of that shape."""
@@ -32,7 +35,7 @@ def hash_shape(body):
         sites.setdefault(cal or "?", []).append(t)
     allowed = (r"^core::str::<impl str>::(as_bytes|bytes)$",
                r"IntoIterator.*::into_iter$", r"Iterator>::next$|Iterator::next$",
-               r"^core::num::<impl u\d+>::wrapping_(mul|add)$")
+               r"^core::num::<impl u\d+>::wrapping_(mul|add)$", FROM_U8)
     extra = sorted(c for c in sites if not any(re.search(a, c) for a in allowed))
     if extra:
         raise AnchorMissing(f"{key}: calls other than byte iteration and wrapping arithmetic: {extra}")
@@ -72,7 +75,8 @@ def hash_shape(body):
     # wrapping_add(operands): the product and the zero-extended byte
     roles = {}
     for a in addt["args"]:
-        tr = du.trace(a)
+        tr = du.trace(a, through=FROM_U8)
+        tr["casts"] = tr["casts"] + [("u8", re.search(FROM_U8, v).group(1)) for v in tr["via"]]
         r = tr["root"]
         if r[0] == "call" and r[2] is mult:
             roles["product"] = tr
@@ -129,7 +133,8 @@ def r1(chk, facts, spec):
     if len(shapes) == 2:
         a, b = shapes["candid"], shapes["candid_derive"]
         same = canon["candid"] == canon["candid_derive"]
-        chk.expect(a == b, "copies:same-function",
+        sem = ("init", "mult", "mul_ty", "add_ty", "ret_ty", "param_ty", "byte_casts")
+        chk.expect(all(a[k] == b[k] for k in sem), "copies:same-function",
                    f"the two copies differ: candid {a} vs candid_derive {b}",
                    ok_detail=f"same shape; MIR identical up to local renaming: {same}")
     # every other label hashing calls one of the two; no third implementation
@@ -185,7 +190,6 @@ def r2(chk, facts, spec):
     m = the_match(h, r"internal::Label$", 2)
     seen = {}
     for a in m["arms"]:
-        from facts import pat_alternatives
         for alt in pat_alternatives(a["pat"]):
             vp = (alt.get("res") or {}).get("path", "")
             if not vp.startswith(LBL) or alt.get("k") != "ts" or len(alt.get("subs", [])) != 1 or alt["subs"][0].get("k") != "bind":
